@@ -32,6 +32,19 @@ def optToks : R (Option (List Tok)) := do
   let s ← next
   if s == "none" then pure none else if s == "some" then (do let t ← toks; pure (some t)) else throw "bad opt toks"
 
+/-- a `network:prefixhex` field: the driver uses the prefix the implementation reports for that network -/
+def netPfx : R Bytes := do
+  let s ← next
+  match s.splitOn ":" with
+  | [_, h] => (match unhex h with | some b => pure b | none => throw "bad netpfx")
+  | _ => throw "bad netpfx"
+/-- a `network:hrp` field -/
+def netHrp : R String := do
+  let s ← next
+  match s.splitOn ":" with
+  | [_, h] => pure h
+  | _ => throw "bad nethrp"
+
 def point (P : Nat × Nat) : String := s!"{hex (beBytes 32 P.1)} {hex (beBytes 32 P.2)}"
 def b1 (b : Bool) : String := if b then "1" else "0"
 def dsha := Crypto.dsha256
@@ -51,21 +64,51 @@ def keyOps : List (String × (Tables → R String)) := [
       let pub ← bytes; let z ← bytes; let sig ← bytes; let ht ← nat
       let Q : Point := some (ofBE (pub.take 32), ofBE (pub.drop 32))
       let body := sig.take (sig.length - 1)
-      pure (match derDecode body with
+      let res : String := (match derDecode body with
         | none => "ok 0 undecodable"
         | some (r, s) =>
           let strict := isStrictDer sig
           let v := ecdsaVerify Q (ofBE z) r s
           let okAll := strict && lowS s && decide (r < 2 ^ 255) && sig.getLast? == some (UInt8.ofNat ht) && v && decide (0 < s)
-          s!"ok {b1 okAll}" ++ (if okAll then "" else s!" strict={b1 strict} lowS={b1 (lowS s)} lowR={b1 (decide (r < 2 ^ 255))} valid={b1 v}"))),
+          s!"ok {b1 okAll}" ++ (if okAll then "" else s!" strict={b1 strict} lowS={b1 (lowS s)} lowR={b1 (decide (r < 2 ^ 255))} valid={b1 v}"))
+      pure res),
   ("s:der_roundtrip", fun _ => do
       let r ← bytes; let s ← bytes
       pure ("ok " ++ hex (derEncode (ofBE r) (ofBE s)))),
   -- C09
-  ("m:wif_enc", fun _ => do let pfx ← bytes; let d ← bytes; let c ← bool; pure ("ok " ++ hexStr (toWif dsha pfx (ofBE d) c))),
-  ("m:wif_dec", fun _ => do let pfx ← bytes; let w ← str; pure (ans (fun d => hex (beBytes 32 d)) (fromWif dsha pfx w))),
+  ("s:wif_spec", fun _ => do
+      -- WIF = Base58Check(version ‖ 32-byte key ‖ [01 if compressed])
+      let pfx ← netPfx; let d ← bytes; let c ← bool
+      pure ("ok " ++ hexStr (B58.check dsha (pfx ++ d ++ (if c then [0x01] else []))))),
+  ("s:wif_dec_spec", fun _ => do
+      -- accepted iff Base58Check-valid, version byte of the network, 32-byte key (optionally followed by one flag byte), key in [1, n-1]
+      let pfx ← netPfx; let w ← str
+      pure (match B58.uncheck dsha w with
+        | some payload =>
+          let body := payload.drop 1
+          let key := body.take 32
+          if payload.take 1 = pfx ∧ payload.length ≥ 1 ∧ (body.length = 32 ∨ body.length = 33) ∧ 1 ≤ ofBE key ∧ ofBE key < n then "ok " ++ hex key else "err"
+        | none => "err")),
+  ("m:pub_roundtrip", fun _ => do
+      let d ← bytes
+      pure (ans id (do
+        let P ← pubOfPriv (ofBE d)
+        let c := pubToBytes P true; let u := pubToBytes P false; let xo := pubXOnly P
+        let pc ← pubFromBytes c; let pu ← pubFromBytes u; let px ← pubFromBytes xo
+        let ok := pc == P && pu == P && px.1 == P.1 && px.2 % 2 == 0
+        pure s!"{hex c} {hex u} {hex xo} {b1 (P.2 % 2 == 0)} {b1 ok}"))),
+  ("s:pub_roundtrip", fun _ => do
+      -- standard forms of d·G: 02/03‖x, 04‖x‖y, x; all three must re-parse to the same point (even-y representative for x-only)
+      let d ← bytes
+      pure (match mul G (ofBE d) with
+        | some (x, y) =>
+          let c := (if y % 2 = 0 then 0x02 else 0x03) :: beBytes 32 x
+          s!"ok {hex c} {hex (0x04 :: (beBytes 32 x ++ beBytes 32 y))} {hex (beBytes 32 x)} {b1 (y % 2 == 0)} 1"
+        | none => "err")),
+  ("m:wif_enc", fun _ => do let pfx ← netPfx; let d ← bytes; let c ← bool; pure ("ok " ++ hexStr (toWif dsha pfx (ofBE d) c))),
+  ("m:wif_dec", fun _ => do let pfx ← netPfx; let w ← str; pure (ans (fun d => hex (beBytes 32 d)) (fromWif dsha pfx w))),
   ("m:priv_init", fun _ => do
-      let pfx ← bytes; let w ← optStr; let e ← optInt; let b ← optBytes
+      let pfx ← netPfx; let w ← optStr; let e ← optInt; let b ← optBytes
       pure (ans (fun (o : Option Nat) => match o with | some d => hex (beBytes 32 d) | none => "random") (privInit dsha pfx w e b))),
   ("m:pub_of", fun _ => do let d ← bytes; pure (ans point (pubOfPriv (ofBE d)))),
   ("m:pub_parse", fun _ => do let b ← bytes; pure (ans point (pubFromBytes b))),
@@ -87,28 +130,31 @@ def keyOps : List (String × (Tables → R String)) := [
       let x ← bytes; let y ← bytes
       let P := (ofBE x, ofBE y)
       pure s!"ok {hex (pubToBytes P true)} {hex (pubToBytes P false)} {hex (pubXOnly P)} {b1 (P.2 % 2 == 0)}"),
+]
+
+def keyOps2 : List (String × (Tables → R String)) := [
   -- C10
-  ("m:b58_addr", fun _ => do let pfx ← bytes; let h ← bytes; pure ("ok " ++ hexStr (addrToString dsha pfx h))),
-  ("s:b58_addr", fun _ => do let pfx ← bytes; let h ← bytes; pure ("ok " ++ hexStr (B58.check dsha (pfx ++ h)))),
+  ("m:b58_addr", fun _ => do let pfx ← netPfx; let h ← bytes; pure ("ok " ++ hexStr (addrToString dsha pfx h))),
+  ("s:b58_addr", fun _ => do let pfx ← netPfx; let h ← bytes; pure ("ok " ++ hexStr (B58.check dsha (pfx ++ h)))),
   ("m:b58_accept", fun _ => do
-      let pfx ← bytes; let s ← str
+      let pfx ← netPfx; let s ← str
       pure (match addrFromString dsha pfx s with | .ok h => "ok " ++ hex h | .error _ => "err")),
   ("s:b58_accept", fun _ => do
       -- Base58Check with valid checksum, this version byte, 20-byte payload
-      let pfx ← bytes; let s ← str
+      let pfx ← netPfx; let s ← str
       pure (match B58.uncheck dsha s with
         | some payload => if payload.length = 21 ∧ payload.take 1 = pfx then "ok " ++ hex (payload.drop 1) else "err"
         | none => "err")),
   ("m:hash160", fun _ => do let b ← bytes; pure ("ok " ++ hex (hash160 Crypto.sha256 tb b))),
   ("m:pub_addr", fun _ => do
-      let pfx ← bytes; let x ← bytes; let y ← bytes; let c ← bool
+      let pfx ← netPfx; let x ← bytes; let y ← bytes; let c ← bool
       pure ("ok " ++ hexStr (addrOfKey pfx (ofBE x, ofBE y) c))),
   -- C11
   ("m:sw_addr", fun _ => do
-      let hrp ← str; let v ← nat; let prog ← bytes
+      let hrp ← netHrp; let v ← nat; let prog ← bytes
       pure (match segwitToString bc hrp v prog with | some s => "ok " ++ hexStr s | none => "ok none")),
   ("m:sw_decode", fun _ => do
-      let hrp ← str; let v ← nat; let a ← str
+      let hrp ← netHrp; let v ← nat; let a ← str
       pure (ans hex (segwitFromString bc hrp v a))),
   ("m:is_bech32", fun _ => do let a ← str; pure s!"ok {b1 (isAddressBech32 bc a)}"),
   -- C12
@@ -150,12 +196,12 @@ def keyOps : List (String × (Tables → R String)) := [
       let magic : Bytes := [0x18] ++ "Bitcoin Signed Message:\n".toUTF8.toList
       pure ("ok " ++ hex (Crypto.dsha256 (magic ++ compactSize m.length ++ m)))),
   ("m:msg_verify", fun _ => do
-      let magic ← bytes; let pfx ← bytes; let a ← str; let sig ← bytes; let m ← bytes
+      let magic ← bytes; let pfx ← netPfx; let a ← str; let sig ← bytes; let m ← bytes
       pure (ans b1 (verifyMessage Crypto.sha256 magic (addrOfKey pfx) a sig m))),
   ("s:msg_accepts", fun _ => do
       -- compact-signature recovery (SEC1 4.1.6 / libsecp256k1 semantics): header 27..34, r,s in range, x = r (+n) a field
       -- element on the curve, recovered key's P2PKH address (compression per header) equals `a`
-      let pfx ← bytes; let a ← str; let sig ← bytes; let m ← bytes
+      let pfx ← netPfx; let a ← str; let sig ← bytes; let m ← bytes
       let h := (sig.getD 0 0).toNat
       let magic : Bytes := [0x18] ++ "Bitcoin Signed Message:\n".toUTF8.toList
       let z := ofBE (Crypto.dsha256 (magic ++ compactSize m.length ++ m))
@@ -166,7 +212,7 @@ def keyOps : List (String × (Tables → R String)) := [
          | none => false)
       pure s!"ok {b1 acc}"),
   ("m:msg_sign_hdr", fun _ => do
-      let magic ← bytes; let pfx ← bytes; let x ← bytes; let y ← bytes; let c ← bool; let rs ← bytes; let m ← bytes
+      let magic ← bytes; let pfx ← netPfx; let x ← bytes; let y ← bytes; let c ← bool; let rs ← bytes; let m ← bytes
       pure (ans (fun (o : Option Bytes) => match o with | some s => hex s | none => "none")
         (signMessageHeader Crypto.sha256 magic (addrOfKey pfx) (ofBE x, ofBE y) c rs m))),
   ("m:msg_recover", fun _ => do
